@@ -79,7 +79,8 @@ def run(tier, seed):
     res.rule = ("pairs of states interleaved in three 8-lane registers x coefficient arrays; one third of the cases use the "
                 "pattern state in {0, 0x5555555555555555, 1} x coefficient in {0, 3, 1} so that two or more addends of a lane "
                 "are 2^64-1 (in [p,2^64)); non-trivial = at least one lane product in the non-canonical band")
-    res.assumptions = ["intrinsic semantics of Isa/Avx512.lean incl. permutex2var/unpack (executed on AVX512F hardware in this run)"]
+    res.assumptions = ["register operands are values in the model; the in-place call patterns f(x, x, b) / f(x, a, x) (output register object = an input register object) are exercised on the implementation side (variants __ra<o>_<k>), not proved",
+                       "intrinsic semantics of Isa/Avx512.lean incl. permutex2var/unpack (executed on AVX512F hardware in this run)"]
     st = run_gen()
     standard_proof_phase(res, MODULE, "C14_", st, ["Scalar", "Avx512", "Avx512Mat"], thorough=(tier == "thorough"))
     drv, err = build_driver()
@@ -98,5 +99,5 @@ def run(tier, seed):
             res.broken.append(("harness build (%s)" % fl, err))
             continue
         if drv:
-            corr_campaign(res, h, drv, make_cases(seed + len(fl), n if fl != "asan" else n // 10, names, T), fl)
+            corr_campaign(res, h, drv, with_reg_alias(make_cases(seed + len(fl), n if fl != "asan" else n // 10, names, T), st), fl)
     return res.finish()
